@@ -200,7 +200,7 @@ fn sym_of(name: &str) -> usize {
 }
 
 pub fn run(cfg: &Cfg, rep: &mut Report) {
-    rep.rule = "(i) EXHAUSTIVE enumeration of all sequences up to length 4 (quick) / 6 (thorough) over a 14-symbol class alphabet {function, function-end, parameter, label, terminator, block instruction, variable/undef, line, type decl, constant decl, annotation, debug name, execution mode, other global}, each symbol instantiated with a random opcode of its class, stepped through Loader::consume_instruction with the H4 state compared with a 3-state automaton after every step, error variants compared with the class of the first offending instruction, and on success the module compared section by section, function by function, block by block; (ii) random sequences up to 60 instructions that instantiate EVERY opcode whose class the logical layout fixes, through load_words. distinct_nontrivial = distinct (state, symbol) transitions plus distinct opcodes filed per section".into();
+    rep.rule = "(i+) all ordered triples of ~36 structural instructions (each of the 22 terminators, merge instructions, line info, phi, variable, undef, nop, label, function boundaries, name, decorate) adjacent inside a function; (i) EXHAUSTIVE enumeration of all sequences up to length 4 (quick) / 6 (thorough) over a 14-symbol class alphabet {function, function-end, parameter, label, terminator, block instruction, variable/undef, line, type decl, constant decl, annotation, debug name, execution mode, other global}, each symbol instantiated with a random opcode of its class, stepped through Loader::consume_instruction with the H4 state compared with a 3-state automaton after every step, error variants compared with the class of the first offending instruction, and on success the module compared section by section, function by function, block by block; (ii) random sequences up to 60 instructions that instantiate EVERY opcode whose class the logical layout fixes, through load_words. distinct_nontrivial = distinct (state, symbol) transitions plus distinct opcodes filed per section".into();
     rep.assumptions.push("section assignment and block-termination classes are hand-transcribed from SPIR-V 1.6 (harness/src/spec.rs); vendor opcodes with unspecified placement are not in the alphabet".into());
     let maxlen: u32 = if cfg.tier_thorough { 6 } else { 4 };
     let k = ALPHABET.len() as u64;
@@ -260,6 +260,34 @@ pub fn run(cfg: &Cfg, rep: &mut Report) {
             r.nontrivial(format!("g:{}:{}:{}", d0.insts[op].opname, inside, kx));
         }
     });
+    // (i+) every ordered triple of "structural" instructions adjacent inside a function: the 22 terminators,
+    // merge instructions, line info, phi, variable, undef, nop, label, function boundaries. The automaton model
+    // decides; instruction-pair or -triple special cases in the loader would show here
+    {
+        let mut names: Vec<String> = d0.insts.iter().filter(|ri| spec::is_block_terminator(&ri.opname)).map(|ri| ri.opname.clone()).collect();
+        for n in ["SelectionMerge", "LoopMerge", "Line", "NoLine", "Nop", "Undef", "Variable", "Phi", "Label", "FunctionEnd", "Function", "FunctionParameter", "Name", "Decorate"] {
+            names.push(n.to_string());
+        }
+        let k = names.len() as u64;
+        let names_ref = &names;
+        run_stage(cfg, rep, "block-ngrams", k * k * k, |idx, rng, r| {
+            let trip = [(idx / (k * k)) as usize, ((idx / k) % k) as usize, (idx % k) as usize];
+            let mut gen = Gen::new(10);
+            let mut insts = vec![instantiate_symbol(rng, &mut gen, 0), instantiate_symbol(rng, &mut gen, 3)];
+            for t in trip {
+                match gen.inst(rng, d0.inst(&names_ref[t]), Form::Min) {
+                    Some(i) => insts.push(i),
+                    None => return,
+                }
+            }
+            insts.push(instantiate_symbol(rng, &mut gen, 4));
+            insts.push(instantiate_symbol(rng, &mut gen, 1));
+            let rp = || crate::util::replay_ref(cfg, "block-ngrams", idx);
+            if let Some(kx) = step_through(&insts, r, &rp, "block-ngrams") {
+                r.nontrivial(format!("ngram:{}", kx));
+            }
+        });
+    }
     // (i'') boundary-value modules (hundreds of parameters / functions, storage-class pairs ...)
     run_stage(cfg, rep, "scale", cfg.n(crate::scale::N_VARIANTS * 12, crate::scale::N_VARIANTS * 300), |idx, rng, r| {
         let variant = [0u64, 6, 8, 0, 6, 2, 7, 5, 1][(idx % 9) as usize];
